@@ -7,7 +7,7 @@ interpreted once on symbolic arguments, the field each one stores its argument i
 value gets an alias entry `role -> that field's value` (the value objects are shared, rules only read them)."""
 from .interp import State
 from .values import *
-from .lin import Lin
+from .lin import Lin, flit
 
 # role -> (public method, argument index) where the default "(role, 0)" does not apply
 EXCEPTIONS = {
@@ -127,6 +127,138 @@ def resolve(F):
                 m[role] = f
         out[adt] = m
     F._roles = out
+    return out
+
+
+def _field_writers(F, adt):
+    """functions containing an assignment to (a part of) a field of a value of type `adt`"""
+    out = set()
+
+    def base_is_adt(e):
+        while e.get("k") in ("Field", "Index", "Deref", "Use", "Borrow"):
+            if e["k"] == "Field":
+                t = F.types[F.strip_ref(e["lhs"]["t"])] if isinstance(e["lhs"].get("t"), int) else None
+                if t is not None and t.get("k") == "adt" and t.get("def") == adt:
+                    return True
+                e = e["lhs"]
+            elif e["k"] == "Index":
+                e = e["lhs"]
+            else:
+                e = e.get("arg") or e.get("src")
+                if e is None:
+                    return False
+        return False
+
+    for d, b in F.bodies.items():
+        found = []
+
+        def visit(e):
+            if isinstance(e, dict):
+                if e.get("k") in ("Assign", "AssignOp") and base_is_adt(e["lhs"]):
+                    found.append(e)
+                elif e.get("k") == "Borrow" and e.get("mut") and base_is_adt(e.get("arg", {})):
+                    found.append(e)
+                for v in e.values():
+                    if isinstance(v, (dict, list)):
+                        visit(v)
+            elif isinstance(e, list):
+                for v in e:
+                    visit(v)
+
+        visit(b.get("body"))
+        if found:
+            out.add(d)
+    return out
+
+
+def builder_invariants(F):
+    """adt -> {field: upper bound}: bounds on a builder's private integer fields that every way of making or changing a
+    builder value preserves (construction discipline: the fields are private, so only the type's own constructors and
+    `self -> Self` methods can write them).  Found by Houdini over the candidates `field <= 2^8-1, 2^16-1, 2^32-1`."""
+    cached = getattr(F, "_binv", None)
+    if cached is not None:
+        return cached
+    F._binv = {}
+    from .interp import Interp
+    from .analysis import Disc, literal_sites
+    from .lin import INT_MAX, le as _le, lin as _lin
+    from . import solver
+    D = Disc(F)
+    sites = literal_sites(F)
+    out = {}
+    for adt, ad in F.adts.items():
+        if not adt.endswith("Builder") or ad["is_enum"]:
+            continue
+        flds = [(f["name"], F.types[f["t"]]) for f in ad["variants"][0]["fields"]]
+        cands = {}
+        for fname, t in flds:
+            if t["k"] == "int" and t["s"] in ("u16", "u32", "u64", "usize"):
+                cands[fname] = [c for c in (255, 65535, 2**32 - 1) if c < INT_MAX[t["s"]]]
+        if not cands:
+            continue
+        makers = []
+        for it in D.inherent(adt):
+            b = F.bodies.get(it["def"])
+            if b and b.get("ret") is not None and F.ty_key(F.strip_ref(b["ret"])) == adt:
+                makers.append(it["def"])
+        # every struct literal of the type must sit in one of these functions (or in a Default impl analysed below)
+        extra = [d for d in sites.get(adt, ()) if d not in makers]
+        dflt = [d for d in extra if d.endswith("::default")]
+        if any(d not in dflt for d in extra):
+            continue
+        makers += dflt
+        # ... and so must every assignment to one of its fields (a `&mut self` mutator is not covered by the argument)
+        writers = _field_writers(F, adt)
+        if any(w not in makers for w in writers):
+            continue
+        cur = {f: min(cs) for f, cs in cands.items()}          # start from the strongest candidate and weaken
+        changed = True
+        rounds = 0
+        while changed and rounds < 6:
+            changed = False
+            rounds += 1
+            for d in makers:
+                b = F.bodies[d]
+                I = Interp(F)
+                I.quiet += 1
+                F._binv_tmp = {adt: dict(cur)}
+                try:
+                    args = []
+                    st = State()
+                    for i, p in enumerate(b["params"]):
+                        v = I.symbolic(p["t"], ("inv-arg", i))
+                        if isinstance(v, StructV) and v.adt == adt:
+                            for f, c in cur.items():
+                                if isinstance(v.fields.get(f), IntV):
+                                    st.pc.append(_le(v.fields[f].l, c))
+                        args.append(v)
+                    outs = I.inline(d, None, st, args)
+                except Exception:
+                    outs = None
+                if outs is None:
+                    cur = {}
+                    break
+                for s, k, r in outs:
+                    if k != "val":
+                        continue
+                    if isinstance(r, StructV) and r.adt in ("std::result::Result", "std::option::Option") and r.variant in ("Ok", "Some"):
+                        r = r.fields["0"]
+                    if not (isinstance(r, StructV) and r.adt == adt):
+                        continue
+                    for f in list(cur):
+                        x = r.fields.get(f)
+                        while f in cur and not (isinstance(x, IntV) and solver.entails(s.pc, flit(_le(x.l, cur[f])))):
+                            weaker = [c for c in cands[f] if c > cur[f]]
+                            if weaker:
+                                cur[f] = min(weaker)
+                            else:
+                                del cur[f]
+                            changed = True
+            if not cur:
+                break
+        if cur:
+            out[adt] = cur
+    F._binv = out
     return out
 
 
